@@ -122,6 +122,16 @@ class Fn:
             elif int_type(t): self.vars.append(nm)
             else: raise Unsupported("field %s of type %s" % (nm, t))
         return ("arr", nm) if nm in self.arrays else ("var", nm)
+    def declare_global(self, e):
+        """a file-scope variable: it becomes a further parameter of run (integers; arrays of integers)"""
+        rd = e.get("referencedDecl", {}); nm = rd.get("name"); t = qt(e)
+        if rd.get("kind") != "VarDecl": raise Unsupported("reference to " + str(nm))
+        if int_type(t):
+            self.vtype[nm] = t; self.vars.append(nm)
+        elif re.match(r".*\[\d*\]$", strip_quals(t)) and int_type(re.sub(r"\[\d*\]$", "", strip_quals(t)).strip()):
+            self.vtype[nm] = t; self.arrays.append(nm); self.base[nm] = nm
+        else: raise Unsupported("global %s of type %s" % (nm, t))
+        self.globals_ = getattr(self, "globals_", []) + [nm]
     def fresh(self, p="s"):
         self.nfresh += 1; return "%s%d" % (p, self.nfresh)
 
@@ -144,6 +154,7 @@ class Fn:
                 while inner.get("kind") == "ParenExpr": inner = inner["inner"][0]
                 if inner.get("kind") == "DeclRefExpr":
                     nm = inner["referencedDecl"]["name"]
+                    if nm not in self.vtype: self.declare_global(inner)
                     if nm in self.arrays: return [], nm, "0", s
                 if inner.get("kind") == "MemberExpr":
                     kind, nm = self.field(inner)
@@ -157,6 +168,7 @@ class Fn:
             return [], nm, "0", s
         if k == "DeclRefExpr":
             nm = e["referencedDecl"]["name"]
+            if nm not in self.vtype: self.declare_global(e)
             if nm in self.arrays and nm not in self.vars: return [], nm, "0", s
             if nm not in self.base: raise Unsupported("pointer %s has no known array" % nm)
             return [], self.base[nm], "(v_%s %s)" % (nm, s), s
@@ -213,7 +225,8 @@ class Fn:
         k = e.get("kind")
         if k == "DeclRefExpr":
             nm = e["referencedDecl"]["name"]
-            if nm not in self.vtype: raise Unsupported("reference to " + nm)
+            if nm not in self.vtype: self.declare_global(e)
+            if nm in self.arrays and nm not in self.vars: raise Unsupported("array %s used as a scalar" % nm)
             return ("var", nm, [], s)
         if k == "MemberExpr":
             kind, nm = self.field(e)
@@ -257,6 +270,9 @@ class Fn:
     def tr(self, e, s):
         k = e.get("kind"); t = qt(e)
         if k == "ParenExpr": return self.tr(e["inner"][0], s)
+        if k == "ConstantExpr":
+            if "value" in e: return [], "(%s)" % e["value"], s
+            return self.tr(e["inner"][0], s)
         if k == "IntegerLiteral": return [], "(%s)" % e["value"], s
         if k == "CharacterLiteral": return [], "(%d)" % e["value"], s
         if k == "UnaryExprOrTypeTraitExpr" and e.get("name") == "sizeof":
@@ -473,6 +489,13 @@ class Fn:
         for x in getattr(g, "extra_params", []):
             if x not in self.vtype: self.vtype[x] = "int"; self.vars.append(x); self.extra_params = getattr(self, "extra_params", []) + [x]
             args.append("(v_%s %s)" % (x, s))
+        for x in getattr(g, "globals_", []):
+            if x not in self.vtype:
+                self.vtype[x] = g.vtype[x]; self.globals_ = getattr(self, "globals_", []) + [x]
+                if x in g.arrays: self.arrays.append(x); self.base[x] = x
+                else: self.vars.append(x)
+            if x in g.arrays: args.append("(a_%s %s)" % (x, s)); arr_args.append((x, x))
+            else: args.append("(v_%s %s)" % (x, s)); arr_args.append((x, "=" + x))
         r = self.fresh("r"); s1 = s
         lets.append("let %s := %s.run fuel0 %s in" % (r, g.name, " ".join(args)))
         # result: option (Z * st); written arrays are copied back
@@ -537,11 +560,45 @@ class Fn:
             inner = " ".join(lets) + " (if %s =? 0 then %s else %s)" % (vc, self.seq([el], s1) if el else "ONormal %s" % s1, self.seq([th], s1))
         elif k in ("WhileStmt", "ForStmt", "DoStmt"):
             inner = self.loop(first, s)
+        elif k == "SwitchStmt":
+            inner = self.switch(first, s)
         else:
             raise Unsupported("statement " + k)
         if not rest: return "(" + inner + ")"
         s2 = self.fresh()
         return "(obind (%s) (fun %s => %s))" % (inner, s2, self.seq(rest, s2))
+    def switch(self, n, s):
+        parts = [c for c in n["inner"] if c.get("kind")]
+        cond, body = parts[0], parts[-1]
+        lets, v, s1 = self.tr(cond, s)
+        x = self.fresh("x"); lets = lets + ["let %s := %s in" % (x, v)]
+        items = body.get("inner", []) if body.get("kind") == "CompoundStmt" else [body]
+        groups = []          # (labels or None for default, statements)
+        for it in items:
+            if it.get("kind") in ("CaseStmt", "DefaultStmt"):
+                labels = []; default = False; cur = it
+                while cur.get("kind") in ("CaseStmt", "DefaultStmt"):
+                    if cur["kind"] == "DefaultStmt": default = True; cur = cur["inner"][0]
+                    else:
+                        l, lv, _ = self.tr(cur["inner"][0], s1)
+                        if l: raise Unsupported("case label with side effects")
+                        labels.append(lv); cur = cur["inner"][-1]
+                groups.append([labels, default, [cur]])
+            else:
+                if not groups: raise Unsupported("statement before the first case label")
+                groups[-1][2].append(it)
+        def terminated(st):
+            return bool(st) and st[-1].get("kind") in ("BreakStmt", "ReturnStmt", "ContinueStmt")
+        for i in range(len(groups) - 2, -1, -1):      # fall-through: a group that does not end in break/return runs on into the next
+            if not terminated(groups[i][2]): groups[i][2] = groups[i][2] + groups[i + 1][2]
+        chain = "ONormal %s" % s1
+        dflt = [g for g in groups if g[1]]
+        if dflt: chain = self.seq(dflt[0][2], s1)
+        for labels, default, st in reversed(groups):
+            if not labels: continue
+            test = " || ".join("(%s =? %s)" % (x, l) for l in labels)
+            chain = "(if (%s)%%bool then %s else %s)" % (test, self.seq(st, s1), chain)
+        return " ".join(lets) + " match (%s) with OBreak t => ONormal t | o => o end" % chain
     def tr_cond(self, c, s):
         if is_ptr(qt(c)):
             l, _, off, s1 = self.ptr(c, s)
@@ -610,6 +667,9 @@ class Fn:
                 pnames.append("(%s_ : Z)" % n); inits["v_" + n] = n + "_"
         for x in getattr(self, "extra_params", []):
             pnames.append("(%s_ : Z)" % x); inits["v_" + x] = x + "_"
+        for x in getattr(self, "globals_", []):
+            if x in self.arrays: pnames.append("(g_%s_ : list Z)" % x); inits["a_" + x] = "g_%s_" % x
+            else: pnames.append("(g_%s_ : Z)" % x); inits["v_" + x] = "g_%s_" % x
         for a in self.arrays:
             m = re.match(r".*\[(\d+)\]$", strip_quals(self.vtype.get(a, "")))
             if m and "a_" + a not in inits: inits["a_" + a] = "(repeat 0 %s)" % m.group(1)
